@@ -185,14 +185,17 @@ def lexPeek (c : Ctx) (s : PState) : PR (Option QItem) :=
       | some it => .ok (some it) { s with peeked := [it] }
       | none => .ok none s
 
+/-- the guard of `peek_many`'s fill loop: is the last queued item one of the stop tokens? -/
+def stoppedQ (stops : List TokKind) (peeked : List QItem) : Bool :=
+  match peeked.getLast? with
+  | some (.tok t _) => stops.contains t
+  | _ => false
+
 /-- the fill loop of `Lexer::peek_many` (`k` more items); `false` = `return None` -/
 def fillQ (c : Ctx) (stops : List TokKind) : Nat → PState → PR Bool
   | 0, s => .ok true s
   | k + 1, s =>
-    let stopped := match s.peeked.getLast? with
-      | some (.tok t _) => stops.contains t
-      | _ => false
-    if stopped then .ok false s
+    if stoppedQ stops s.peeked then .ok false s
     else
       (lexInner c s).bind fun r s =>
         match r with
